@@ -207,11 +207,16 @@ def lex (s : Bytes) : Except LexErr (List Tok) :=
   if s.isEmpty then .error (.at 0)
   else lexLoop (s.length + 1) (St.skipWs { acc := [], ntype := false, func := false, pos := 0, rest := s })
 
+/-- every byte of `s` at an offset in `[a, b)` is white space or the `$` of a variable reference -/
+def GapOK (s : Bytes) (a b : Nat) : Prop := ∀ i c, a ≤ i → i < b → s[i]? = some c → Path.isWs c = true ∨ c = 0x24
+
 /-- specification predicate for token arrays, read from the LAST token backwards (`acc` = last token first): every token
-is the slice of `s` at its offset (`tok_pos`, `tok_len`), ends at or before `bound`, and the token before it ends at or before
-its offset — the tokens are non-overlapping substrings of the input, in order -/
+is the slice of `s` at its offset (`tok_pos`, `tok_len`), ends at or before `bound`, the bytes between its end and `bound`
+are white space (or `$`), and the same holds for the tokens before it up to its offset; before the first token there is
+only white space — the tokens are non-overlapping substrings of the input, in order, and cover everything but blanks -/
 def Chain (s : Bytes) : Nat → List Tok → Prop
-  | _, [] => True
-  | bound, t :: r => t.pos + t.text.length ≤ bound ∧ t.text = (s.drop t.pos).take t.text.length ∧ Chain s t.pos r
+  | bound, [] => GapOK s 0 bound
+  | bound, t :: r => t.pos + t.text.length ≤ bound ∧ t.text = (s.drop t.pos).take t.text.length ∧
+      GapOK s (t.pos + t.text.length) bound ∧ Chain s t.pos r
 
 end LyModel.XPath.Lex
